@@ -4,6 +4,7 @@ CONSTANTS
   Templates <- TplC18req
   Bundles <- TlsBundles
   Ctxs <- Wide
+  Reqs <- FullReq
   Tries <- One
   Hists <- NoHist
   BackoffCfgs <- NoBoCfgs
